@@ -79,7 +79,12 @@ def install():
         path = os.fspath(path_or_buf)
         if not hit("csv", base(path)):
             r = o_to_csv(self, path, *a, **k)
-            _log({"kind": "csvlen", "base": base(path), "len": os.path.getsize(path)})
+            try:
+                raw = open(path, "rb").read()
+                nl = [i + 1 for i, c in enumerate(raw) if c == 10][:400]
+            except Exception:
+                raw, nl = b"", []
+            _log({"kind": "csvlen", "base": base(path), "len": len(raw), "rows": nl})
             return r
         data = o_to_csv(self, None, *a, **k).encode("utf-8")
         b = SPEC.get("byte", 0)
